@@ -366,7 +366,3 @@ Proof.
   - intros H. inversion H as [|x l Hn _]; subst. apply Hn. left. reflexivity.
 Qed.
 
-Print Assumptions post_order_terminates.
-Print Assumptions post_order_spec.
-Print Assumptions post_order_spec_general.
-Print Assumptions post_order_old_refuted.
